@@ -24,8 +24,8 @@
          exactly the part of C11 that Props/C11.v leaves unproved (forall sc ps in the image of export_prim_params,
          rt_prim_params sc ps = Ok ps); everything else in xinfo_c11_ok is a genuine input condition (a table with an unknown
          direction code or spice type is not what any exporter writes);
-     (2) parameter values that Base/Package.v carries only as text and to_c11 does not read back (prefixed numbers with a
-         decimal string): xinfo_c11_ok is false on them;
+     (2) parameter texts that are not what harness/impl/designlib.py:pval_str prints for a value the exporter writes (e.g. a
+         prefixed decimal text that is not the canonical str(Decimal)): xinfo_c11_ok is false on them;
      (3) frag_ok2 (acyclic dependency between reference groups), inherited from the pipeline model (Props/C01F.v).
    Not a gap: the order of modules and external modules IS covered here (the walk is part of export_model), unlike in Props/C11.v. *)
 Require Import Hdl21.Base.PyInt Hdl21.Spec.PySlice Hdl21.Model.Slice Hdl21.Model.Resolve Hdl21.Base.Design
@@ -128,10 +128,20 @@ Proof.
 Qed.
 
 (* the hypothesis on the side table is not vacuous the other way either: an unknown direction code, a primitive parameter the
-   importer would change (a numeric STRING for a scalar field comes back as a literal), a prefixed decimal text are refused *)
+   importer would change (a numeric STRING for a scalar field comes back as a literal), a prefixed decimal text that is not what
+   its Decimal prints as (1.5E+0) are refused; the literal and the canonical decimal are accepted *)
 Example C11E_ex_side_table_refused :
   xinfo_c11_ok {| x_devs := []; x_ncnames := []; x_dirs := [("M", [("a", 7)])] |} = false /\
   dev_c11_ok {| dv_dom := "vlsir.primitives"; dv_name := "resistor"; dv_params := [("r", "str:1e3")]; dv_ext := None |} = false /\
-  dev_c11_ok {| dv_dom := "vlsir.primitives"; dv_name := "resistor"; dv_params := [("r", "pre:KILO:s1.5")]; dv_ext := None |} = false /\
+  dev_c11_ok {| dv_dom := "vlsir.primitives"; dv_name := "resistor"; dv_params := [("r", "pre:KILO:s1.5E+0")]; dv_ext := None |} = false /\
+  dev_c11_ok {| dv_dom := "vlsir.primitives"; dv_name := "resistor"; dv_params := [("r", "pre:KILO:s1.5")]; dv_ext := None |} = true /\
   dev_c11_ok {| dv_dom := "vlsir.primitives"; dv_name := "resistor"; dv_params := [("r", "lit:1e3")]; dv_ext := None |} = true.
 Proof. vm_compute. repeat split; reflexivity. Qed.
+
+(* the parameter text reader on every kind of value pval_str prints *)
+Example C11E_ex_parse :
+  map parse_pvalue ["int:-12"; "int:012"; "dbl:0x1.8p+1"; "str:a:b"; "lit:"; "pre:MILLI:i5"; "pre:UNIT:s1.50"; "pre:UNIT:s-2.5E-7";
+                    "pre:UNIT:s15E-1"; "pre:UNIT:d0x1p+0"; "?None"] =
+  [VInt (-12); VUnset; VDbl "0x1.8p+1"; VStr "a:b"; VLit ""; VPre "MILLI" (NInt 5); VPre "UNIT" (NDec (Dec.mkDec false 150 (-2)));
+   VPre "UNIT" (NDec (Dec.mkDec true 25 (-8))); VPre "UNIT" (NRaw "15E-1"); VPre "UNIT" (NDbl "0x1p+0"); VUnset].
+Proof. vm_compute. reflexivity. Qed.
